@@ -70,8 +70,24 @@ def _optb(x):
     return None if x is None else f2b(x)
 
 
+def _rel(a, b, k=1, rtol=1e-9):
+    """relative closeness without an absolute floor: `L`, the remembered ratios and `T_k` are scale-equivariant
+    (f -> s*f gives L -> s*L), so 1e-12 versus 0 is a disagreement; inf/nan must match"""
+    a, b = float(a), float(b)
+    if math.isnan(a) or math.isnan(b):
+        return math.isnan(a) and math.isnan(b)
+    if math.isinf(a) or math.isinf(b):
+        return a == b
+    return abs(a - b) <= rtol * max(k, 1) * max(abs(a), abs(b))
+
+
 def _same(a, b, rtol=1e-13):
-    return common.close(a, b, 1, rtol)
+    return _rel(a, b, 1, rtol)
+
+
+def _scale(case):
+    """2^k for a case of the scale stream (the loss, L0 and the weight of g multiplied by 2^k), else 1"""
+    return float(2.0 ** case.get("scale_k", 0))
 
 
 def _policy_wire(pol):
@@ -85,9 +101,12 @@ def _policy_wire(pol):
 
 
 def _light(case):
-    return {k: case[k] for k in ("Q", "b", "c", "complex", "g", "gw", "x0", "L0", "policy", "accel", "steps")} | {
+    out = {k: case[k] for k in ("Q", "b", "c", "complex", "g", "gw", "x0", "L0", "policy", "accel", "steps")} | {
         "flavour": case.get("flavour", "")
     }
+    if case.get("scale_k"):
+        out["scale_k"] = case["scale_k"]
+    return out
 
 
 # --------------------------------------------------------------------------
@@ -99,6 +118,7 @@ def oracle(case):
     case = {k: v for k, v in case.items() if k != "at_step"}
     recs = G.run_real(case)
     f, grad, prox = G.np_problem(case)
+    fmag = G.np_magnitude(case)
     pol = case["policy"]
     kind = pol["kind"]
     last1 = last2 = None  # adaptive BB: most recent usable ratios
@@ -122,7 +142,7 @@ def oracle(case):
                 r1 = np.float64(xg) / np.float64(xx)
             if kind == "bb":
                 want = float(r2) if G.finite_pos(float(r2)) else Lprev
-                if not common.close(L, want, 8, TOL):
+                if not _rel(L, want, 8, TOL):
                     return {**where, "why": "BB: L is neither the documented ratio nor the previous value",
                             "L": L, "Lprev": Lprev, "documented_ratio": float(r2), "dx": dx.tolist(), "dg": dg.tolist()}
             else:
@@ -137,7 +157,7 @@ def oracle(case):
                     d = last1 / last2 - pol["kappa"]
                     if d != 0 and abs(d) <= 1e-9:  # within rounding of the threshold (an exact tie is decisive)
                         break
-                if not common.close(L, want, 8, TOL):
+                if not _rel(L, want, 8, TOL):
                     return {**where, "why": "adaptive BB: L does not follow the documented kappa rule on the latest usable ratios",
                             "L": L, "want": want, "Lbb1": last1, "Lbb2": last2, "kappa": pol["kappa"]}
         if kind in ("ls", "rls"):
@@ -155,7 +175,10 @@ def oracle(case):
                 z, y = t["z"], t["y"]
                 fz = f(z)
                 fq = f(y) + grad(y) @ (z - y) + 0.5 * t["L"] * float((z - y) @ (z - y))
-                if not (common.close(fz, t["fz"], 16, 1e-8) and common.close(fq, t["fq"], 16, 1e-8)):
+                # tolerance relative to the size of the terms (f-values scale with the loss; they may cancel)
+                mag = fmag(z) + fmag(y) + float(np.abs(grad(y)) @ np.abs(z - y)) + 0.5 * abs(t["L"]) * float((z - y) @ (z - y))
+                if not (abs(fz - t["fz"]) <= 16e-8 * mag and abs(fq - t["fq"]) <= 16e-8 * mag) and not (
+                        math.isnan(fz) and math.isnan(t["fz"])):
                     return {**where, "why": "f / f_quad_approx differ from the documented formulas", "trial": j,
                             "fz": [t["fz"], fz], "fq": [t["fq"], fq]}
                 acc = t["fz"] <= t["fq"]
@@ -222,13 +245,13 @@ def oracle_memory(case):
         Qd = Q @ d
         want = float(Qd @ Qd) / curv
         if case["policy"]["kind"] == "bb":
-            if not common.close(L, want, 16, 1e-9):
+            if not _rel(L, want, 16, 1e-9):
                 return {"why": "BB: a probing call after this step does not return the documented ratio of (v, v+d): memory is stale",
                         "after_step": at, "d": d.tolist(), "L": L, "documented_ratio": want}
         else:
             l1 = float(np.asarray(pol.Lbb1prev)) if pol.Lbb1prev is not None else None
             want1 = curv / float(d @ d)
-            if l1 is None or not common.close(l1, want1, 16, 1e-9):
+            if l1 is None or not _rel(l1, want1, 16, 1e-9):
                 return {"why": "adaptive BB: a probing call after this step does not store the documented Lbb1 of (v, v+d): memory is stale",
                         "after_step": at, "d": d.tolist(), "Lbb1": l1, "documented": want1}
         return None
@@ -373,15 +396,15 @@ def check_case(ctx, model, case, origin="gen"):
             break
         st = states[i]
         mL, mx = b2f(st["L"]), common.b2fs(st["x"])
-        ok = common.close(r["L"], mL, 8, TOL) and common.allclose(r["x"], mx, None, 1e-8)
+        ok = _rel(r["L"], mL, 8, TOL) and common.allclose(r["x"], mx, None, 1e-8)
         if ok and kind in ("ls", "rls"):
             ok = st["tried"] == len(r["tests"])
         if ok and case["accel"] and kind != "rls":
             ok = common.allclose(r["v"], common.b2fs(st["v"]), None, 1e-8) and common.close(r["t"], b2f(st["t"]), 4, TOL)
         if ok and kind == "rls":
-            ok = common.close(r["Tk"], b2f(st["Tk"]), 8, 1e-8)
+            ok = _rel(r["Tk"], b2f(st["Tk"]), 8, 1e-8)
         if not ok:
-            if _near_tie(kind, r, pol):
+            if _near_tie(kind, r, pol, _scale(case)):
                 ctx.count("run:discarded-near-tie")
                 break
             bad("stepsize.run", i, {"L": r["L"], "x": r["x"].tolist(), "trials": len(r["tests"]), "t": r.get("t")},
@@ -391,18 +414,18 @@ def check_case(ctx, model, case, origin="gen"):
     return nbad
 
 
-def _near_tie(kind, r, pol):
-    """a decision of this step is within rounding of its boundary (the run tie cannot follow it)"""
+def _near_tie(kind, r, pol, sc=1.0):
+    """a decision of this step is within rounding of its boundary (the run tie cannot follow it); `sc` = scale of the loss"""
     if kind in ("bb", "abb") and r["ips"] is not None:
         xx, xg, gg = r["ips"]
-        if abs(xg) <= 1e-9 * (math.sqrt(abs(xx * gg)) + 1e-300) or xx <= 1e-18 or gg <= 1e-18:
+        if abs(xg) <= 1e-9 * (math.sqrt(abs(xx * gg)) + 1e-300) or xx <= 1e-18 or gg <= 1e-18 * sc * sc:
             return True
         if kind == "abb":
             m1, m2 = r.get("mem_after", (None, None))
             if m1 is not None and m2 is not None and m2 != 0 and abs(m1 / m2 - pol["kappa"]) <= 1e-9:
                 return True
     for t in r["tests"]:
-        if abs(t["fz"] - t["fq"]) <= 1e-9 * (1 + abs(t["fz"]) + abs(t["fq"])):
+        if abs(t["fz"] - t["fq"]) <= 1e-9 * (sc + abs(t["fz"]) + abs(t["fq"])):
             return True
     return False
 
@@ -577,6 +600,57 @@ def correspond(ctx, model):
         steps = int(ctx.rng.integers(5, 11)) if isbb else int(ctx.rng.integers(2, 9))
         case = {**p, "policy": pol, "accel": bool(ctx.rng.integers(0, 2)), "steps": steps}
         check_case(ctx, model, case)
+    # -- scale stream: crafted and random problems times 2^k (|k| up to 40) ------------------------------
+    ks = [-40, -30, -20, -10, 10, 20, 30, 40]
+    crafted = [c for c in G.crafted_cases() if c.get("flavour") in ("fallback-then-usable", "abb-memory", "budget", "tie", "negative")]
+    for j, base in enumerate(crafted):
+        if ctx.thorough or j % 3 == int(ctx.seed) % 3:
+            check_scaled(ctx, model, base, ks[(j + int(ctx.seed)) % len(ks)])
+    for _ in range(ctx.n(36, 300)):
+        pol = G.gen_policy(ctx.rng, ["bb", "abb", "ls", "rls"][int(ctx.rng.integers(0, 4))])
+        isbb = pol["kind"] in ("bb", "abb")
+        p = G.gen_problem(ctx.rng, ["diag-pos", "diag-indef", "dense-psd", "complex-herm"][int(ctx.rng.integers(0, 4))])
+        base = {**p, "policy": pol, "accel": bool(ctx.rng.integers(0, 2)), "steps": int(ctx.rng.integers(4, 8)) if isbb else int(ctx.rng.integers(2, 6))}
+        k = int(ks[int(ctx.rng.integers(0, len(ks)))] if ctx.rng.integers(0, 2) else ctx.rng.integers(-40, 41))
+        check_scaled(ctx, model, base, k)
+
+
+def check_scaled(ctx, model, base, k):
+    """scale stream: the correspondence on the scaled problem itself, plus scale equivariance of the implementation:
+    L(2^k f) = 2^k L(f) and identical iterates at every step (relative comparison, no absolute floor)"""
+    sc = G.scaled_case(base, k)
+    ctx.count(f"scale:2^{'-' if k < 0 else '+'}{min(abs(k) // 10 * 10, 40)}")
+    nbad = check_case(ctx, model, sc, origin="scaled")
+    if nbad:
+        return
+    bad = oracle_scale({**_light(sc), "scale_base": _light(base)})
+    if bad is not None:
+        ctx.disagree("stepsize.scale", {**_light(sc), "scale_base": _light(base)}, bad, None, oracle=oracle_scale)
+
+
+def oracle_scale(case):
+    """property on the implementation: the run on 2^k f returns 2^k times the L of the run on f, step by step (and the
+    documented ratios / first accepted value, by `oracle` on the scaled run itself)"""
+    base = case.get("scale_base")
+    c = {k: v for k, v in case.items() if k not in ("scale_base", "at_step")}
+    r0 = oracle(c)
+    if r0 is not None or base is None:
+        return r0
+    f = float(2.0 ** (c.get("scale_k", 0) - base.get("scale_k", 0)))
+    ra, rb = G.run_real(c), G.run_real(base)
+    for i, (a, b) in enumerate(zip(ra, rb)):
+        if a["raised"] or b["raised"]:
+            if bool(a["raised"]) != bool(b["raised"]):
+                return {"step": i, "why": "scaling the loss changes whether the step raises", "scaled": a["raised"], "base": b["raised"]}
+            break
+        if _near_tie(c["policy"]["kind"], b, c["policy"], _scale(base)):
+            break
+        if not _rel(a["L"], f * b["L"], 8, 1e-12):
+            return {"step": i, "why": "policy is not scale-equivariant: L(2^k f) != 2^k L(f)", "k": c.get("scale_k", 0), "L_scaled": a["L"],
+                    "L_base": b["L"], "expected": f * b["L"], "policy": c["policy"], "inner_products_scaled": a.get("ips")}
+        if not common.allclose(a["x"], b["x"], None, 1e-9):
+            return {"step": i, "why": "iterates of the scaled problem differ", "x_scaled": a["x"].tolist(), "x_base": b["x"].tolist()}
+    return None
 
 
 def findings(ctx, model):
@@ -603,7 +677,8 @@ def replay(ctx, model, case):
     common.setup_scico()
     c = case.get("case", case)
     c = {k: v for k, v in c.items() if k != "at_step"}
-    r = oracle(c)
+    r = oracle_scale(c) if c.get("scale_base") else oracle(c)
+    c = {k: v for k, v in c.items() if k != "scale_base"}
     print("replay:", "property FAILS on implementation:" if r else "no failure at this input", r)
     if r:
         ctx.violation({"kind": "failing-input", "case": c, "failing": r}, True, "replay")
